@@ -7,31 +7,43 @@ From Helm Require Import Engine.Types Engine.Eff Engine.Ops Engine.Skeleton Engi
                          Engine.SkeletonProofsRollback Engine.SkeletonProofsUninstall.
 Import ListNotations.
 
-(* failure-free runs, and runs in which exactly the n-th effect fails, for every option
-   assignment of the operation's flag space, every ledger, adoption or not *)
+(* failure-free runs, for every option assignment of the operation's flag space, every ledger,
+   adoption or not *)
 Lemma model_follows_skeleton_lemma :
   forall o fl l ad,
     In fl (flag_space o) -> In l ledgers ->
-    follows expected rexpected (mkScen o fl l ad) [] = true /\
-    forall n, n < List.length (model_trace (mkScen o fl l ad) []) ->
-              follows expected rexpected (mkScen o fl l ad) [n] = true.
+    follows expected rexpected (mkScen o fl l ad) [] = true.
 Proof.
   intros [] fl l ad.
-  - exact (check_op_lift OInstall expected rexpected check_install fl l ad).
-  - exact (check_op_lift OUpgrade expected rexpected check_upgrade fl l ad).
-  - exact (check_op_lift ORollback expected rexpected check_rollback fl l ad).
-  - exact (check_op_lift OUninstall expected rexpected check_uninstall fl l ad).
+  - exact (check_op_ok_lift OInstall expected rexpected check_ok_install fl l ad).
+  - exact (check_op_ok_lift OUpgrade expected rexpected check_ok_upgrade fl l ad).
+  - exact (check_op_ok_lift ORollback expected rexpected check_ok_rollback fl l ad).
+  - exact (check_op_ok_lift OUninstall expected rexpected check_ok_uninstall fl l ad).
+Qed.
+
+(* runs in which exactly the n-th effect fails, on the smaller space *)
+Lemma model_failures_follow_skeleton_lemma :
+  forall o fl l,
+    In fl (fail_flag_space o) -> In l (fail_ledgers o) ->
+    follows expected rexpected (mkScen o fl l false) [] = true /\
+    forall n, n < List.length (model_trace (mkScen o fl l false) []) ->
+              follows expected rexpected (mkScen o fl l false) [n] = true.
+Proof.
+  intros [] fl l.
+  - exact (check_op_fail_lift OInstall expected rexpected check_fail_install fl l).
+  - exact (check_op_fail_lift OUpgrade expected rexpected check_fail_upgrade fl l).
+  - exact (check_op_fail_lift ORollback expected rexpected check_fail_rollback fl l).
+  - exact (check_op_fail_lift OUninstall expected rexpected check_fail_uninstall fl l).
 Qed.
 
 (* failure-free runs for every assignment of the eight boolean options *)
 Lemma model_follows_skeleton_all_flags_lemma :
-  forall o a c k r h d co tk l ad,
-    In l ledgers ->
-    follows expected rexpected (mkScen o (mkFlags a c k r 2 h d co tk 0) l ad) [] = true.
+  forall o a c k r h d co tk,
+    follows expected rexpected (mkScen o (mkFlags a c k r 2 h d co tk 0) (main_ledger o) false) [] = true.
 Proof.
-  intros [] a c k r h d co tk l ad.
-  - exact (check_op_all_flags_lift OInstall expected rexpected check_all_flags_install a c k r h d co tk l ad).
-  - exact (check_op_all_flags_lift OUpgrade expected rexpected check_all_flags_upgrade a c k r h d co tk l ad).
-  - exact (check_op_all_flags_lift ORollback expected rexpected check_all_flags_rollback a c k r h d co tk l ad).
-  - exact (check_op_all_flags_lift OUninstall expected rexpected check_all_flags_uninstall a c k r h d co tk l ad).
+  intros [] a c k r h d co tk.
+  - exact (check_op_all_flags_lift OInstall expected rexpected check_all_flags_install a c k r h d co tk).
+  - exact (check_op_all_flags_lift OUpgrade expected rexpected check_all_flags_upgrade a c k r h d co tk).
+  - exact (check_op_all_flags_lift ORollback expected rexpected check_all_flags_rollback a c k r h d co tk).
+  - exact (check_op_all_flags_lift OUninstall expected rexpected check_all_flags_uninstall a c k r h d co tk).
 Qed.
